@@ -14,6 +14,8 @@ rm -rf "$S/apd" "$S/sim"
 mkdir -p "$S/apd" "$S/bin"
 # the working tree, not HEAD: sources may have been edited before the check runs
 (cd "$REPO" && tar --exclude=.git -cf - .) | tar -xf - -C "$S/apd" || exit 2
+# the generated helpers use generics: the copy's language version must allow them
+sed -i -E 's/^go 1\.(1[0-7]|[0-9])$/go 1.18/' "$S/apd/go.mod" 2>/dev/null
 cp -a "$HERE/sim" "$S/sim" || exit 2
 cp "$REPO/go.sum" "$S/sim/go.sum" 2>/dev/null
 cd "$S/sim" || exit 2
